@@ -198,13 +198,14 @@ def body_real(case, ctx):
     check_tables(ctx, m, dd, T, sig, counts)
     if ctx.failures:
         return
-    # (4) DOF locations: every finite location lies on the entity its DOF is attached to (all
-    # elements); for nodal elements the table is moreover single-valued and equals the mapped
-    # local location for EVERY cell containing the DOF (straight cells; curved ones are C10's)
+    # (4) DOF locations: every finite location lies on the entity its DOF is attached to, and the table is single-valued: it
+    # equals the mapped local location for EVERY cell containing the DOF (straight cells; curved ones are C10's).  Probing showed
+    # this to hold for every element whose functions are attached to fixed points, nodal or not (H(div)/H(curl) elements list
+    # their facet points in the globally consistent direction), with one exception recorded as a known finding: ElementTriN3.
     if 'curved' not in desc['feat'] and hasattr(basis, 'doflocs'):
         loc = np.asarray(e.doflocs, dtype=float)
         info = ge.info(case['elem'])
-        strict = info is not None and info['nodal']
+        strict = True
         ent = {}
         for v in range(m.nvertices):
             for g in basis.nodal_dofs[:, v].tolist():
@@ -227,7 +228,9 @@ def body_real(case, ctx):
             scale = np.abs(P).max() + 1.0
             h = np.abs(P - P.mean(1, keepdims=True)).max()
             if strict and not np.allclose(got[:, fin], x[:, fin], rtol=0, atol=1e-12 * scale):
-                ctx.fail('doflocs_single_valued', f'cell {c}: max diff {np.abs(got[:, fin] - x[:, fin]).max():.2e}', **sig)
+                ctx.fail('doflocs_single_valued', f'cell {c}: the location table differs from the mapped local locations of this cell by '
+                         f'{np.abs(got[:, fin] - x[:, fin]).max():.2e} (a DOF shared with another cell is located elsewhere from there)',
+                         n3='ElementTriN3' in lab, **sig)
                 break
             for i in np.nonzero(fin)[0]:
                 g = int(gd[i])
@@ -345,6 +348,6 @@ PROP = Prop(
     assumptions=['synthetic elements respect the convention all real elements follow: no facet DOFs in 1-D, no edge DOFs in 2-D',
                  'doflocs are compared on straight-sided cells only (curved cells: the quadratic map is judged in C10)',
                  'facet bases are skipped for prisms and for ElementTriN3 (documented unsupported combinations)'],
-    subs=[Sub('real', body_real, strategy=real_case, quick=500, thorough=12000),
+    subs=[Sub('real', body_real, strategy=real_case, quick=1500, thorough=12000),
           Sub('synthetic', body_synth, strategy=synth_case, quick=600, thorough=15000)],
     design_ref='DESIGN.md section 6, C04')
